@@ -73,6 +73,10 @@ func runC04(c *Ctx) {
 	}
 	r.Floor("C04.selfsync", 4)
 
+	// structural premise of the delivery clause: a registered pipeline is never absent from the
+	// sync.Map between its registration and its removal — an overwrite is one Store
+	c.ruleSingleStore("C04.swap")
+
 	c.pairingRule("C04.pairing", func(fn *ssa.Function) bool { return PkgPathOf(fn) == PkgRoot }, false)
 	r.Floor("C04.pairing", 10)
 }
